@@ -723,6 +723,17 @@ def _r6_status_meaning(run):
             run.violated("C19.R6", f, reads[0], "no raise in %s is reachable under a condition on a worker's exit code: a failed worker is not reported"
                          % f.short, kind="status-test-dead")
             continue
+        # between finding a failed worker and raising, the helper must not wait without bound for anybody: a surviving worker
+        # can be blocked on a bounded queue that only the caller of this helper drains (the walk dispatcher), and then never exits
+        def _about_status(pc_):
+            return any(c != "loop" and any(t[0] == "attr" and t[2] == "exitcode" for t in (sym.atoms_of(c) | _attr_terms(c))) for c, _p in pc_)
+        waits = [e for e in res.events if e.kind == "call" and e.term[1][0] == "attr" and e.term[1][2] == "join" and not e.term[2]
+                 and not [k for k, v in e.term[3] if k == "timeout"] and _about_status(e.pc) and e.term[1][1][0] != "const"]
+        if waits:
+            run.violated("C19.R6", f, waits[0].node, "%s, having found a failed worker, waits for %s to exit (join() without a timeout) before it raises: a surviving worker "
+                         "that is blocked on a bounded queue which only the caller drains (the walk's done queue) never exits, so the failure is never reported - the "
+                         "operation hangs instead of failing" % (f.short, sym.show(waits[0].term[1][1])[:40]), kind="wait-before-raise")
+            continue
         if len(subjects) > 1:
             run.undecided("C19.R6", f, reads[0], "several exit-status subjects: %s" % sorted(sym.show(t) for t in subjects), kind="status-test-subjects")
             continue
